@@ -33,6 +33,12 @@ pub async fn run_one(rep: &mut Report, sub_seed: u64, table: Arc<Vec<Vec<u8>>>, 
         run.apply(&mut rng, op).await;
         if run.sys.broker.update_meta_file().await.is_ok() {
             if let Ok(bytes) = std::fs::read(&meta_file) {
+                // a crash right now leaves exactly these bytes behind
+                rep.count("persisted_files_checked", 1);
+                if serde_json::from_slice::<serde_json::Value>(&bytes).is_err() {
+                    rep.violation("C13:metadata-file-incomplete-after-update", format!("update_meta_file() returned Ok but the metadata file holds {} bytes that are not a complete JSON document", bytes.len()), json!({"sub_seed": sub_seed, "after_op_index": i}));
+                    continue;
+                }
                 let e = run.sys.broker.get_epoch().await.unwrap_or(0);
                 snapshots.push((i, bytes, e));
             }
@@ -180,6 +186,52 @@ pub async fn run_one(rep: &mut Report, sub_seed: u64, table: Arc<Vec<Vec<u8>>>, 
         return;
     }
     rep.count("recoveries_converged", 1);
+    // (2b) the first metadata change after the recovery must again be newer than what the proxies hold
+    // (a recovery that lifts the served epochs but leaves the broker's own clock behind shows up here)
+    {
+        let before: Vec<(String, u64)> = {
+            let mut v = vec![];
+            for a in known.iter() {
+                if run.down.contains(a) {
+                    continue;
+                }
+                if let Some(p) = run.sys.net.proxy(a) {
+                    if let Some(e) = get_epoch(&p.cmd_str(&["UMCTL", "GETEPOCH"]).await) {
+                        v.push((a.clone(), e));
+                    }
+                }
+            }
+            v
+        };
+        let held = before.iter().map(|x| x.1).max().unwrap_or(0);
+        let mut m = std::collections::HashMap::new();
+        let v = if rng.chance(1, 2) { "7" } else { "13" };
+        m.insert("migration_scan_count".to_string(), v.to_string());
+        let migrating = new_broker.get_cluster_info_by_name(CLUSTER).await.ok().flatten().map(|i| i.is_migrating).unwrap_or(true);
+        if !migrating && new_broker.change_config(CLUSTER.to_string(), m).await.is_ok() {
+            rep.count("changes_after_recovery", 1);
+            if let Some(c) = new_broker.get_cluster_by_name(CLUSTER).await.ok().flatten() {
+                if c.get_epoch() <= held {
+                    rep.violation(
+                        "C13:change-after-recovery-not-newer-than-proxies",
+                        format!("the first metadata change after the recovery is served with epoch {} but proxies hold epoch {}", c.get_epoch(), held),
+                        ctx(json!({"proxy_epochs": before})),
+                    );
+                }
+            }
+            let mut diffs2 = vec![];
+            for _ in 0..12 {
+                run.rounds(&coord, 1).await;
+                diffs2 = divergence(&run, &new_broker).await;
+                if diffs2.is_empty() {
+                    break;
+                }
+            }
+            if !diffs2.is_empty() {
+                rep.violation("C13:change-after-recovery-not-adopted", format!("12 sync rounds after a config change on the recovered broker: {}", diffs2.join("; ")), ctx(json!({})));
+            }
+        }
+    }
     // (3) partition and routing hold again
     if let Some(c) = new_broker.get_cluster_by_name(CLUSTER).await.ok().flatten() {
         for (clause, msg) in check_cluster_view(&c) {
@@ -197,6 +249,45 @@ pub async fn run_one(rep: &mut Report, sub_seed: u64, table: Arc<Vec<Vec<u8>>>, 
     cleanup();
 }
 
+/// The metadata file must be complete whenever `update_meta_file()` has returned (a crash may follow immediately).
+fn persistence_stress(rep: &mut Report, n: usize) {
+    let rt = match tokio::runtime::Builder::new_multi_thread().worker_threads(4).enable_all().build() {
+        Ok(rt) => rt,
+        Err(_) => return rep.inconclusive("persistence stress: cannot build runtime"),
+    };
+    let file = scratch_file("stress", rep.seed);
+    let (checked, bad) = rt.block_on(async {
+        let cfg = crate::broker::BrokerCfg { migration_limit: 0, failure_ttl: 600, failure_quorum: 1, ordered: false };
+        let svc = crate::broker::new_service(&cfg, &file);
+        for i in 0..60 {
+            let host = format!("10.1.{}.{}", i % 3, i / 3 + 1);
+            let payload = json!({"proxy_address": format!("{}:7000", host), "nodes": [format!("{}:6000", host), format!("{}:6001", host)], "host": host, "index": null});
+            if let Ok(pl) = serde_json::from_value(payload) {
+                let _ = svc.add_proxy(pl).await;
+            }
+        }
+        let _ = svc.add_cluster("c".to_string(), 40).await;
+        let (mut checked, mut bad) = (0u64, vec![]);
+        for i in 0..n {
+            if svc.update_meta_file().await.is_err() {
+                continue;
+            }
+            let bytes = std::fs::read(&file).unwrap_or_default();
+            checked += 1;
+            if serde_json::from_slice::<serde_json::Value>(&bytes).is_err() {
+                bad.push((i, bytes.len()));
+            }
+        }
+        (checked, bad)
+    });
+    let _ = std::fs::remove_file(&file);
+    rep.count("persisted_files_checked", checked);
+    rep.count("persistence_stress_writes", checked);
+    if let Some((i, len)) = bad.first() {
+        rep.violation("C13:metadata-file-incomplete-after-update", format!("{} of {} writes: update_meta_file() returned Ok but the file was not a complete JSON document (first: write {}, {} bytes)", bad.len(), checked, i, len), json!({"incomplete": bad.iter().take(10).collect::<Vec<_>>()}));
+    }
+}
+
 pub fn run(rep: &mut Report) {
     rep.rule = "system histories (proxies registered, cluster created, resized with real data-path migrations, proxies failed / revived, rebalanced, config changed, coordinator rounds in between) with the production JsonFileStorage persisting the broker after every operation; the broker is then replaced by a NEW MemBrokerService loaded from the file of a chosen earlier operation (crash point), epoch recovery runs with the largest epoch reported by the proxies (UMCTL GETEPOCH), and the real coordinator components are driven round by round against the recovered broker. Oracle: every served view strictly above every proxy epoch; convergence (epochs, replication roles, no uncommitted migration) within 30 + 6 x pending-migrations rounds; partition monitor and routing probes afterwards. Leg B (tcp_* counters): broker histories against real ServerProxyService listeners on 127.x.y.1, metadata synced over TCP, a chosen earlier metadata file restored into a new broker, some listeners stopped, then the production recover_epoch(); oracle: stopped proxies are among the reported failed addresses, every served view is strictly above every reachable proxy epoch (read by the harness over its own TCP connections), proxies adopt the recovered views within 6 TCP sync rounds. distinct_nontrivial = distinct (operations lost, epoch distance, kinds of lost operations) for leg A plus distinct (operations lost, epoch distance, proxies down, proxies known) for leg B".to_string();
     let thorough = rep.is_thorough();
@@ -211,6 +302,8 @@ pub fn run(rep: &mut Report) {
     rep.floor("recoveries_where_proxies_are_ahead_of_the_snapshot", 30);
     rep.floor("recoveries_converged", 80);
     rep.floor("served_epochs_compared", 500);
+    persistence_stress(rep, if thorough { 40_000 } else { 2_500 });
+    rep.floor("persisted_files_checked", 2000);
     // leg B: production recover_epoch() over loopback TCP
     let tcp_n: u64 = std::env::var("VERIF_TCP_N").ok().and_then(|v| v.parse().ok()).unwrap_or(if thorough { 1600 } else { 64 });
     run_tcp(rep, tcp_n, 8);
@@ -299,6 +392,7 @@ mod tcp {
         let mut live: BTreeMap<String, Live> = BTreeMap::new();
         let mut log: Vec<serde_json::Value> = vec![];
         let mut per_host = vec![0usize; n_hosts];
+        let mut payloads: BTreeMap<String, Vec<String>> = BTreeMap::new();
         let n_proxies = rng.urange(4, 8);
         for i in 0..n_proxies {
             let h = i % n_hosts;
@@ -322,6 +416,7 @@ mod tcp {
                 let _ = service.run(stop_rx).await;
             });
             live.insert(addr.clone(), Live { stop: stop_tx, up: true });
+            payloads.insert(addr.clone(), nodes.to_vec());
             let payload = json!({"proxy_address": addr, "nodes": nodes, "host": hosts[h], "index": null});
             if let Ok(pl) = serde_json::from_value(payload) {
                 let r = broker.add_proxy(pl).await.map_err(|e| e.to_string());
@@ -352,7 +447,7 @@ mod tcp {
         let r = broker.add_cluster(CLUSTER.to_string(), 4).await.map_err(|e| e.to_string());
         log.push(json!({"op": "add_cluster 4", "result": format!("{:?}", r)}));
         let mut snapshots: Vec<(usize, Vec<u8>, u64)> = vec![];
-        let n_ops = rng.urange(3, 9);
+        let n_ops = rng.urange(4, 12);
         for i in 0..n_ops {
             let what = match rng.below(10) {
                 0..=3 => {
@@ -365,7 +460,22 @@ mod tcp {
                     m.insert(k.to_string(), v.to_string());
                     format!("config {}={} {:?}", k, v, broker.change_config(CLUSTER.to_string(), m).await.map_err(|e| e.to_string()))
                 }
-                6 => format!("balance {:?}", broker.balance_masters(CLUSTER.to_string()).await.map_err(|e| e.to_string())),
+                6 => {
+                    // a proxy that was failed over registers again (it never stopped listening here) and is a free proxy from now on
+                    let failed = broker.get_failed_proxies().await.unwrap_or_default();
+                    match rng.pick_opt(&failed) {
+                        Some(a) => {
+                            let host = a.split(':').next().unwrap_or("").to_string();
+                            let nodes = payloads.get(a).cloned().unwrap_or_default();
+                            let r = match serde_json::from_value(json!({"proxy_address": a, "nodes": nodes, "host": host, "index": null})) {
+                                Ok(pl) => broker.add_proxy(pl).await.map_err(|e| e.to_string()),
+                                Err(e) => Err(e.to_string()),
+                            };
+                            format!("re-register failed proxy {} {:?}", a, r)
+                        }
+                        None => format!("balance {:?}", broker.balance_masters(CLUSTER.to_string()).await.map_err(|e| e.to_string())),
+                    }
+                }
                 7 => {
                     let members: Vec<String> = match broker.get_cluster_by_name(CLUSTER).await.ok().flatten() {
                         Some(c) => c.get_nodes().iter().map(|n| n.get_proxy_address().to_string()).collect::<BTreeSet<_>>().into_iter().collect(),
@@ -530,6 +640,26 @@ mod tcp {
             rep.violation("C13:proxies-do-not-adopt-the-recovered-view", format!("tcp leg, {} sync rounds after recovery: {}", used, diffs.join("; ")), ctx(json!({})));
         } else {
             rep.count("tcp_recoveries_adopted", 1);
+        }
+        // the first metadata change after the recovery is newer than what the proxies hold and is adopted
+        if diffs.is_empty() {
+            let mut held = 0u64;
+            for a in known.iter() {
+                if let Some(e) = tcp_epoch(a).await {
+                    held = held.max(e);
+                }
+            }
+            let migrating = new_broker.get_cluster_info_by_name(CLUSTER).await.ok().flatten().map(|i| i.is_migrating).unwrap_or(true);
+            let mut m = std::collections::HashMap::new();
+            m.insert("migration_scan_count".to_string(), "11".to_string());
+            if !migrating && new_broker.change_config(CLUSTER.to_string(), m).await.is_ok() {
+                rep.count("tcp_changes_after_recovery", 1);
+                if let Some(c) = new_broker.get_cluster_by_name(CLUSTER).await.ok().flatten() {
+                    if c.get_epoch() <= held {
+                        rep.violation("C13:change-after-recovery-not-newer-than-proxies", format!("tcp leg: the first metadata change after the recovery is served with epoch {} but a proxy holds epoch {}", c.get_epoch(), held), ctx(json!({})));
+                    }
+                }
+            }
         }
         if rep.counter("tcp_samples") < 1 {
             rep.count("tcp_samples", 1);
